@@ -398,7 +398,7 @@ TRUSTED = [
     "modelled (Model/Protocols.v): src/lib.rs handle_connection (alt-svc append, per-request task for HTTP/2, the way the HTTP/1 request "
     "loop is left - break, then HttpConnection::shutdown: close_notify on TLS; shutdown = false is the variant that returns instead -, "
     "the HTTP/2 accept loop with streams the client has reset: the limiter's 429 written by the loop itself, its failure on a reset "
-    "stream - ClientRefusedResponse - now a continue: fix 2bfb61f, cont = false is the code before, which returned and dropped the "
+    "stream - ClientRefusedResponse - now a continue: fix 38c6abd, cont = false is the code before, which returned and dropped the "
     "connection with every unwritten answer; "
     "the request-head limits of the two front ends: HttpConnection::accept's 16 * 1024 for kvarn_async::read::request and - h2 0.4 "
     "frame/headers.rs load_hpack, transcribed - name + value + 32 per field against h2's default header-list limit, which "
@@ -481,7 +481,7 @@ LEVEL_TEXT = ("partial. Machine-checked Coq theorems (37, statements pinned) ove
               "fields: no request is answered over HTTP/1.1 and refused 431 over HTTP/2); RESET STREAMS: reset_stream_is_its_own "
               "(for every batch of HTTP/2 streams - answered by the limiter or by tasks of their own, reset by the client or not, in any "
               "combination - every stream that was not reset receives its own answer and the connection is still served); and "
-              "ten witnesses: reset_limited_stream_v0_refuted (before fix 2bfb61f a reset stream that the limiter answers ended the whole "
+              "ten witnesses: reset_limited_stream_v0_refuted (before fix 38c6abd a reset stream that the limiter answers ended the whole "
               "connection: of six streams only the 429 written before it arrived), close_without_notify_refuted (leaving the request loop by return instead of break: the streamed answer "
               "of unknown length is complete over HTTP/2 and plain HTTP/1.1 and cannot be told from a truncated one over TLS), "
               "small_header_list_limit_refuted (16 KiB as HTTP/2 header-list limit is not 'the same limit' as the 16 KiB HTTP/1 head: "
@@ -501,7 +501,7 @@ LEVEL_TEXT = ("partial. Machine-checked Coq theorems (37, statements pinned) ove
               "by that run: everything inside the h2 and rustls crates - HPACK, flow control, frame splitting and scheduling, stream "
               "state machine, RST_STREAM handling, TLS and ALPN - and the tokio scheduler; the concurrency theorem is about "
               "sequentially consistent interleavings of two atomic blocks per task. Three kvarn defects found by these rounds were "
-              "repaired (d63bba7, d675f8a, 2bfb61f) and are part of the claim, as is the former known class h1-unread-request-body (dfe4d54); "
+              "repaired (d63bba7, d675f8a, 38c6abd) and are part of the claim, as is the former known class h1-unread-request-body (dfe4d54); "
               "the model describes /repo main with the repairs of all properties merged (7334433, 89e2956, 3c296af, 21f0154, "
               "9ae9b1a, the Http1Body repairs of C07, the request-parser repairs aca6293 / 2dbf4ed on the input side). "
               "Two known classes, both outside the property's quantifier: h1-undeclared-request-body (kvarn's HTTP/1 reader ignores "
